@@ -490,10 +490,119 @@ def worker(args):
     return hutil.export(chk)
 
 
+def anon_worker(args):
+    """a nested *anonymous* struct/union: its members are copied into the enclosing aggregate"""
+    prop, tier, tag, outer_union, n_inner = args
+    chk = hutil.sub_check(prop, tier)
+    mod = irgen.backend()
+    L = pystubs.CffiLayout(mod)
+    F = L.flags
+    label = '%s{prim, anonymous-struct-with-%d-members}' % ('union' if outer_union else 'struct', n_inner)
+
+    def parse(ex, item, fmt, *outs):
+        g = ex.ghost
+        f = g['fields'][g['item_index'][simp(item)]]
+        ex.mem.store(outs[1], f['fname'], 8)
+        ex.mem.store(outs[3], f['ctype'], 8)
+        ex.mem.store(outs[4], mask(32), 4)
+        return 1
+
+    def add_field(ex, interned, fname, ftype, offset, bitshift, bitsize, flags):
+        cf = pystubs.new_cfield(ex, L, ftype, offset, 0, 0)
+        ex.ghost['added'].append({'fname': simp(fname), 'ftype': simp(ftype), 'offset': offset, 'bitshift': bitshift,
+                                  'bitsize': bitsize, 'flags': flags})
+        return cf
+    st = pystubs.stubs(_PyArg_ParseTuple_SizeT=parse, _add_field=add_field, PyDict_New=lambda ex: pystubs.py(ex).new_opaque('dict'))
+    ex = llsym.Executor(mod, st, loop_bound=n_inner + 4, solver_timeout_ms=120000)
+
+    def h(ex):
+        py = pystubs.PyEnv(ex)
+        g = ex.ghost
+        g['added'] = []
+        inputs = {}
+        psize = z3.BitVec('prim_size', 64)
+        ex.assume(z3.Or(*[psize == (1 << k) for k in range(4)]))
+        inputs['prim_size'] = psize
+        pt = pystubs.new_ctype(ex, L, psize, F['CT_PRIMITIVE_SIGNED'], length=psize)
+        isize, ialign = z3.BitVec('inner_size', 64), z3.BitVec('inner_align', 64)
+        ex.assume(z3.And(z3.Or(*[ialign == (1 << k) for k in range(4)]), isize >= 1, isize <= 256, (isize & (ialign - 1)) == 0))
+        inputs['inner_size'], inputs['inner_align'] = isize, ialign
+        inner_fields = []
+        items = []
+        mt = pystubs.new_ctype(ex, L, 4, F['CT_PRIMITIVE_UNSIGNED'], length=4)
+        for k in range(n_inner):
+            off = z3.BitVec('member%d_offset' % k, 64)
+            sh = z3.BitVec('member%d_bitshift' % k, 16)
+            bs = z3.BitVec('member%d_bitsize' % k, 16)
+            fl = z3.BitVec('member%d_flags' % k, 8)
+            ex.assume(z3.And(off >= 0, off <= 252, z3.Or(z3.And(sh == -1, bs == -1), z3.And(sh >= 0, sh <= 31, bs >= 1, bs <= 32)),
+                             z3.Or(fl == 0, fl == F['BF_IGNORE_IN_CTOR'])))
+            inputs.update({'member%d_offset' % k: off, 'member%d_bitshift' % k: sh, 'member%d_bitsize' % k: bs, 'member%d_flags' % k: fl})
+            cf = pystubs.new_cfield(ex, L, mt, off, sh, bs, flags=fl)
+            name = py.new_unicode([ord('m'), ord('0') + k], 1)
+            inner_fields.append((cf, name, off, sh, bs, fl))
+            items.append([name, cf])
+        for (a, *_), (b, *_) in zip(inner_fields, inner_fields[1:]):
+            ex.mem.store(a + L.cf['cf_next'], b, 8)
+        idict = py.new_opaque('dict', 'PyDict_Type', items=items)
+        it = pystubs.new_ctype(ex, L, isize, F['CT_STRUCT'], length=ialign, stuff=idict, extra=inner_fields[0][0] if inner_fields else 0)
+        fields = [{'fname': py.new_unicode([ord('p')], 1), 'ctype': pt}, {'fname': py.new_unicode([], 1), 'ctype': it}]
+        tup = [py.new_opaque('field-tuple') for _ in fields]
+        g['fields'] = fields
+        g['item_index'] = dict((t_, i) for i, t_ in enumerate(tup))
+        lst = py.new_list(tup)
+        sct = pystubs.new_ctype(ex, L, mask(64), F['CT_UNION'] if outer_union else F['CT_STRUCT'], length=mask(64))
+        ex.mem.store(sct + L.ct['ct_unrealized_struct_or_union'], 1, 1)
+        r = simp(ex.call('b_complete_struct_or_union_lock_held', [sct, lst, mask(64), mask(32), 0, 0]))
+        hutil.witness(chk, ex, label)
+        D = lambda nm, c: hutil.discharge(chk, ex, label + ':' + nm, c, inputs)
+        okk = is_c(r) and r == ex.gaddr('_Py_NoneStruct') and py.exc is None
+        D('accepted', okk)
+        if not okk:
+            return
+        added = g['added']
+        okn = len(added) == 1 + n_inner
+        D('one-field-per-member-of-the-anonymous-aggregate', okn)
+        if not okn:
+            return
+        base = z3.BitVecVal(0, 64) if outer_union else roundup(psize, ialign)
+        D('first-field', z3.And(z3.BoolVal(added[0]['ftype'] == pt), bv(added[0]['offset'], 64) == 0))
+        for k, (cf, name, off, sh, bs, fl) in enumerate(inner_fields):
+            a = added[1 + k]
+            D('member%d-keeps-its-name-and-type' % k, a['fname'] == name and a['ftype'] == mt)
+            D('member%d-offset==offset-of-the-aggregate+own-offset' % k, bv(a['offset'], 64) == base + off)
+            D('member%d-keeps-its-bit-position-and-width' % k,
+              z3.And(z3.Extract(15, 0, bv(a['bitshift'], 32)) == sh, z3.Extract(15, 0, bv(a['bitsize'], 32)) == bs))
+            want_fl = z3.ZeroExt(24, fl) | (F['BF_IGNORE_IN_CTOR'] if outer_union else 0)
+            D('member%d-ctor-flag' % k, bv(a['flags'], 32) == want_fl)
+        amax = zmax(psize, ialign)
+        total = zmax(psize, isize) if outer_union else base + isize
+        total = roundup(total, amax)
+        D('sizeof', bv(ex.mem.load(sct + L.ct['ct_size'], 8), 64) == total)
+        D('alignof', bv(ex.mem.load(sct + L.ct['ct_length'], 8), 64) == amax)
+        fm = bv(ex.mem.load(sct + L.ct['ct_flags_mut'], 4), 32)
+        D('not-passable-by-value', (fm & F['CT_CUSTOM_FIELD_POS']) != 0)
+
+    def on_oob(ex, what_, model):
+        chk.report_failure('%s: stray memory access: %s' % (label, what_), {}, None, None)
+    ex.on_oob = on_oob
+    res = ex.explore(h, max_paths=5000)
+    hutil.finish_explore(chk, ex, res, label)
+    chk.functions = irgen.func_info(mod, sorted(ex.called))
+    return hutil.export(chk)
+
+
+def dispatch(args):
+    return anon_worker(args) if args[2] == 'anon' else worker(args)
+
+
 def run(chk):
     quick = chk.tier == 'quick'
     P = (chk.prop, chk.tier)
     cases = []
+    for outer_union in (False, True):
+        for n_inner in ((1, 2) if quick else (1, 2, 3)):
+            cases.append(P + ('anon', outer_union, n_inner))
     nonflex = ['prim', 'ptr', 'array', 'nested', 'bitfield']
     seqs = []
     for n in (1, 2):
@@ -527,6 +636,7 @@ def run(chk):
                   'field kinds': KINDS, 'primitive sizes': '1,2,4,8,16 (alignment = size)', 'arrays': '1..64 items of size 1,2,4,8',
                   'nested aggregates': 'size 1..4096 multiple of a power-of-two alignment <= 16 (inductive representation)',
                   'bit-fields': 'type size 1,2,4,8, width 0..8*size, named or anonymous', 'pack': [0, 1, 2, 4]}
+    chk.bounds['anonymous nested aggregates'] = 'struct/union {prim; anonymous struct of 1..3 members}: every member offset, bit position/width (or none), ctor flag'
     chk.outside = ['the Python plumbing from cdef text to the backend call (cparser/model.py), exercised only by replays',
                    'MSVC/ARM bit-field conventions (not this platform)', 'packed structs with bit-fields (excluded by the statement)',
                    'more fields than the bound']
@@ -535,4 +645,4 @@ def run(chk):
     chk.assume('CPython contracts of vf/pystubs.py; _add_field is a recorder returning a fresh field object')
     irgen.backend()
     gcc_validate(chk, 60 if quick else 600)
-    hutil.run_cases(chk, cases, worker)
+    hutil.run_cases(chk, cases, dispatch)
